@@ -232,6 +232,9 @@ def shapes(tier):
     A(freq=D_, interval=3, bymonth=[1, 12], span=1)
     A(freq=H, interval=7, byhour=[3, 10], span=1)
     A(freq=MI, interval=50, span=1)
+    A(freq=W, byyearday=[-364], wkst=0, span=2, K=3)
+    A(freq=W, byyearday=[-366, -365, 3], span=2, K=4)
+    A(freq=W, byyearday=[1, 2, -1], wkst=3, interval=2, span=3, K=3)
     # shapes that expose the recorded findings (kept so that the findings stay visible and anything new next to them is reported)
     A(freq=MO_, byweekday=[0, [4, 1]], span=2, until_days=200)
     A(freq=MO_, byweekday=[[6, 52]], span=1)
